@@ -91,6 +91,8 @@ def run_replay(pid, rp, repo, seed):
 
 
 def run_harness(pid, mode, arg, repo, seed, timeout=600):
+    os.environ["VERIF_PROPERTY"] = pid
+    pid = PROPS.get(pid, {}).get("contract_module", pid) if isinstance(PROPS.get(pid), dict) else pid
     h = os.path.join(HERE, "harness", f"{pid}.py")
     if not os.path.exists(h):
         return None
@@ -131,7 +133,9 @@ def main():
         return r["rc"]
     meta = PROPS[pid]
     t0 = time.time()
-    mods = sorted(glob.glob(os.path.join(HERE, "contracts", f"{pid}.py")) + glob.glob(os.path.join(HERE, "contracts", f"{pid}_*.py")))
+    # several properties may be decided by one contract module (e.g. the scheduler fragment serves C10, C11, C12)
+    owner = meta.get("contract_module", pid)
+    mods = sorted(glob.glob(os.path.join(HERE, "contracts", f"{owner}.py")) + glob.glob(os.path.join(HERE, "contracts", f"{owner}_*.py")))
     if not mods:
         print(f"CHECKER-ERROR property={pid} no contract module")
         return 3
@@ -150,13 +154,19 @@ def main():
             for u in rep["units"] + rep["undecided"]:
                 _unit_owner[u["unit"]] = rep["dependency_of"]
     results = [r for rep in reports for r in rep["results"]]
+    if meta.get("ignore_known_clauses"):
+        # clauses recorded as findings of ANOTHER property served by the same contract module are not part of this one's claim
+        results = [r for r in results if not r["info"].get("known")]
     undec_units = [u for rep in reports for u in rep["undecided"]]
     agg = aggregate(results)
     proof_obls = {k: v for k, v in agg.items() if v["expect"] == "unsat"}
     live_obls = {k: v for k, v in agg.items() if v["expect"] == "sat"}
 
     known = json.load(open(os.path.join(HERE, "known_findings.json")))
-    known_ids = {(k["property"], k["obligation"]) for k in known.get("findings", [])}
+    known_ids = {(pid if k["property"] == owner else k["property"], k["obligation"]) for k in known.get("findings", [])}
+    for k in known.get("findings", []):
+        if k["property"] == owner:
+            k["property"] = pid
     baseline_path = os.path.join(HERE, "baseline", "obligations.json")
     baseline = json.load(open(baseline_path)) if os.path.exists(baseline_path) else {}
     if a.update_baseline:
